@@ -911,6 +911,24 @@ class Interp:
             return None
         if ck in ("BitCast", "Dependent"):
             return v
+        if ck == "Dynamic":
+            # dynamic_cast<T *>(p): the object itself when its class is T or derives from it, a null pointer otherwise
+            if v is None:
+                return None
+            if isinstance(v, Obj):
+                want = t.replace("const ", "").replace("*", "").replace("&", "").strip()
+                seen, stack = set(), [v.cls]
+                while stack:
+                    c_ = stack.pop()
+                    if c_ == want:
+                        return v
+                    if c_ in seen:
+                        continue
+                    seen.add(c_)
+                    rec = self.prog.records.get(c_)
+                    if rec:
+                        stack.extend(str(b) for b in rec.get("bases", []))
+                return None
         raise Unsupported("cast kind %s" % ck)
 
     def e_CStyleCastExpr(self, n, env):
@@ -1125,8 +1143,22 @@ class Interp:
                     items.append(copy.deepcopy(fill) if fill is not None else self.default_elem(elem))
                 return Vec(items, elem)
             if isinstance(a0, Vec):
-                return copy.deepcopy(a0)
+                return typed_copy(a0, n.get("t", "") or cname)
+            if isinstance(a0, list):
+                # braced initialiser: vector<T>{a, b, ...}
+                return Vec([vcopy(x, elem or "") for x in a0], elem)
+            if isinstance(a0, Iter) and len(args) >= 2:
+                a1 = self.ev(args[1], env)
+                if isinstance(a1, Iter) and a1.v is a0.v and isinstance(a0.v, Vec):
+                    return Vec([vcopy(x, elem or "") for x in a0.v.items[a0.i:a1.i]], elem)
             raise Unsupported("std::vector constructor form")
+        if cname.startswith("std::set<") or cname.startswith("std::multiset<"):
+            if not args:
+                return SetVal()
+            if n.get("copy"):
+                a0 = self.ev(args[0], env)
+                if isinstance(a0, SetVal):
+                    return SetVal(set(a0.items))
         if cname.startswith("std::basic_ostringstream") or cname.startswith("std::basic_stringstream"):
             return StreamVal()
         if cname.startswith("std::map<"):
@@ -1607,6 +1639,15 @@ class Interp:
             if meth == "insert":
                 recv.items.add(self.ev(args[0], env))
                 return None
+            if meth == "erase" and len(args) == 1:
+                v = self.ev(args[0], env)
+                if isinstance(v, Iter):
+                    raise Unsupported("std::set::erase(iterator)")
+                gone = [e for e in recv.items if (e is v if isinstance(v, Obj) else e == v)]
+                for e in gone:
+                    recv.items.discard(e)
+                recv._snap = None
+                return len(gone)
             if meth == "empty":
                 return not recv.items
             if meth == "size":
@@ -1631,7 +1672,9 @@ class Interp:
         if op == "()" and (cname.startswith("std::function<") or cname.startswith("std::_Bind<")):
             return self.call_value(self.ev(args[0], env), [self.ev(a, env) for a in args[1:]])
         if cname.startswith("std::shared_ptr<") or cname.startswith("std::__shared_ptr<") or cname.startswith("std::__shared_ptr_access<") \
-                or (cname.startswith("std::operator") and "shared_ptr" in cname):
+                or (cname.startswith("std::operator") and "shared_ptr" in cname) \
+                or (cname.startswith("std::operator") and op in ("==", "!=") and len(args) == 2 and
+                    ("shared_ptr<" in _strip(args[0]).get("t", "") or "shared_ptr<" in _strip(args[1]).get("t", ""))):
             if op in ("->", "*"):
                 return self.ev(args[0], env)
             if op in ("==", "!="):
@@ -1720,7 +1763,10 @@ class Interp:
         if op == "=":
             v = self.ev(args[1], env)
             ref = self.lv(args[0], env)
-            ref.set(typed_copy(v, _strip(args[0]).get("t", "")))      # member-wise: pointer members keep aliasing their pointee
+            t0 = _strip(args[0]).get("t", "")
+            if isinstance(v, list) and (t0.startswith("std::vector<") or t0.startswith("std::list<")):
+                v = Vec(list(v), _first_targ(t0))           # c = {a, b, ...}
+            ref.set(typed_copy(v, t0))      # member-wise: pointer members keep aliasing their pointee
             return v
         if op == "()":
             fv = self.ev(args[0], env)
@@ -1850,6 +1896,20 @@ class Interp:
                     return Iter(b.v, b.i + len(out))
                 import functools
                 seg.sort(key=functools.cmp_to_key(lambda x, y: -1 if self.compare(x, "<", y) else (1 if self.compare(y, "<", x) else 0)))
+                b.v.items[b.i:e.i] = seg
+                return None
+        if nm in ("sort", "stable_sort") and len(args) == 3:
+            b, e = self.ev(args[0], env), self.ev(args[1], env)
+            cmpf = self.ev(args[2], env)
+            if isinstance(b, Iter) and isinstance(e, Iter) and b.v is e.v and isinstance(b.v, Vec):
+                import functools
+                seg = b.v.items[b.i:e.i]
+
+                def lt(x, y):
+                    return self.truth(self.call_value(cmpf, [x, y]))
+                # (a stable merge: elements the comparator does not distinguish keep their order -- std::sort gives no such promise;
+                #  rules that depend on the order of equivalent elements have to say so)
+                seg.sort(key=functools.cmp_to_key(lambda x, y: -1 if lt(x, y) else (1 if lt(y, x) else 0)))
                 b.v.items[b.i:e.i] = seg
                 return None
         raise Unsupported("std/C function %s" % cname)
